@@ -138,6 +138,29 @@ static void body(void) {
         }
         if (!vx_failed && (g_judge & 1) && (consumed != r->flen || produced != r->clen)) vx_fail("hint-following: stopped at in=%zu/%zu out=%zu/%zu", consumed, r->flen, produced, r->clen);
     }
+    /* ---- the same walk for a reader with a small buffer: each call gets min(asked, cap) bytes, ample output.  The regenerated bytes are the
+     * content, every byte given is taken, and completion comes exactly at the frame end, never before or beyond ---- */
+    {   static const size_t CAPS[] = {1, 2, 3, 5, 16, 64};
+        for (int ci = 0; ci < 6 && !vx_failed; ci++) {
+            size_t consumed = 0, produced = 0, hint = ZSTD_initDStream(hd); int f = 0; if (r->dlen) ZSTD_DCtx_refDDict(hd, hdd);
+            for (long it = 0; it < 400000 && consumed < r->flen; it++) {
+                size_t give = hint < CAPS[ci] ? hint : CAPS[ci]; if (give > r->flen - consumed) give = r->flen - consumed;
+                /* (what is asked after a partial delivery is not judged: the property speaks of a reader that delivers exactly what was asked) */
+                ZSTD_inBuffer in = { r->frame + consumed, give, 0 }; ZSTD_outBuffer out = { g_obuf, g_ample, 0 };
+                size_t ret = ZSTD_decompressStream(hd, &out, &in);
+                if (ZSTD_isError(ret)) { if (g_judge & 3) vx_fail("reader with a %zu-byte buffer: valid stream rejected: %s", CAPS[ci], ZSTD_getErrorName(ret)); break; }
+                if ((g_judge & 3) && (produced + out.pos > r->clen || memcmp(g_obuf, r->content + produced, out.pos))) { vx_fail("reader with a %zu-byte buffer: output differs at offset %zu", CAPS[ci], produced); break; }
+                consumed += in.pos; produced += out.pos;
+                if ((g_judge & 2) && in.pos != give) { vx_fail("reader with a %zu-byte buffer: %zu bytes given, only %zu consumed although output space was ample", CAPS[ci], give, in.pos); break; }
+                if (ret == 0) {
+                    if ((g_judge & 2) && consumed != S.L.inEnd[f]) { vx_fail("reader with a %zu-byte buffer: completion reported at offset %zu, the frame ends at %zu", CAPS[ci], consumed, S.L.inEnd[f]); break; }
+                    f++; hint = ZSTD_initDStream(hd); if (r->dlen) ZSTD_DCtx_refDDict(hd, hdd);
+                    if (f >= S.L.n) break;
+                } else hint = ret;
+            }
+            if (!vx_failed && (g_judge & 3) && (consumed != r->flen || produced != r->clen)) vx_fail("reader with a %zu-byte buffer: stopped at in=%zu/%zu out=%zu/%zu", CAPS[ci], consumed, r->flen, produced, r->clen);
+        }
+    }
     ZSTD_freeDCtx(hd); ZSTD_freeDDict(hdd);
     if (vx_failed) return;
     /* ---- whole / byte-by-byte segmentations for every record; closed graph for the small ones ---- */
